@@ -1,7 +1,8 @@
 (* C20 - Cross-chain identifiers are canonical and mean what transfers record.
    Property theorems only; every proof is a reference to a lemma of Proofs/IdsProofs.v. *)
 From Coq Require Import String List ZArith NArith Bool.
-From Orbiter Require Import Lib.Str Gen.Constants Model.Ids Proofs.IdsProofs.
+From Orbiter Require Import Lib.Str Lib.Res Gen.Constants Model.Ids Model.Genesis Proofs.IdsProofs.
+Import ListNotations.
 Open Scope string_scope.
 
 (* the textual form parses back to the same pair *)
@@ -38,6 +39,35 @@ Theorem C20_no_aliases : forall s1 s2 p,
   canon_val s1 = canon_val s2 -> s1 = s2.
 Proof. exact accepted_no_aliases. Qed.
 Print Assumptions C20_no_aliases.
+
+(* every place a genesis document carries an identifier - the two ends of each statistics entry, each
+   paused destination - holds a valid one whenever the document validates; with C20_canonical: no
+   non-canonical spelling of a CCTP / Hyperlane domain enters the chain through genesis *)
+Definition genesis_ids (g : genesis) : list (option ccid) :=
+  match g_dispatcher g with
+  | Some (amts, cnts) => flat_map (fun a => [ga_src a; ga_dst a]) amts ++ flat_map (fun c => [gc_src c; gc_dst c]) cnts
+  | None => []
+  end ++ match g_forwarder g with Some (_, ccs) => ccs | None => [] end.
+Theorem C20_genesis_ids : forall g, validate_genesis g = Ok tt ->
+  forall o, In o (genesis_ids g) -> exists c, o = Some c /\ ccid_valid c = true.
+Proof.
+  intros g H o Hin. unfold validate_genesis in H.
+  destruct (g_adapter g); [|discriminate]. unfold genesis_ids in Hin.
+  destruct (g_dispatcher g) as [[amts cnts]|]; [|discriminate].
+  destruct (forallb amount_valid amts) eqn:Ea; [|discriminate]. destruct (forallb count_valid cnts) eqn:Ec; [|discriminate]. cbn [negb] in H.
+  destruct (g_forwarder g) as [[protos ccs]|]; [|discriminate].
+  destruct (forallb protocol_valid protos); [|discriminate]. destruct (distinct Z.eqb protos); [|discriminate]. cbn [negb] in H.
+  destruct (forallb ccid_ok ccs) eqn:Ef; [|discriminate].
+  assert (Hok : ccid_ok o = true).
+  { rewrite forallb_forall in Ea, Ec, Ef. apply in_app_or in Hin as [Hin|Hin]; [apply in_app_or in Hin as [Hin|Hin]|].
+    - apply in_flat_map in Hin as (a & Ha & Ho). specialize (Ea a Ha). unfold amount_valid in Ea.
+      repeat (apply andb_true_iff in Ea as [Ea ?]). destruct Ho as [<-|[<-|[]]]; assumption.
+    - apply in_flat_map in Hin as (c & Hc & Ho). specialize (Ec c Hc). unfold count_valid in Ec.
+      repeat (apply andb_true_iff in Ec as [Ec ?]). destruct Ho as [<-|[<-|[]]]; assumption.
+    - apply Ef. exact Hin. }
+  destruct o as [c|]; [exists c; split; [reflexivity|exact Hok]|discriminate].
+Qed.
+Print Assumptions C20_genesis_ids.
 
 (* non-vacuity: concrete identifiers satisfy the hypotheses *)
 Example C20_ex_valid :
